@@ -1486,7 +1486,9 @@ func init() {
 
 type unschedIn struct {
 	Scope string `json:"scope"` // "root" | "ns"
-	Then  string `json:"then"`  // "nothing" | "scheduled" (the pod gets placed after 1 s) | "deleted" (after 1 s)
+	Then  string `json:"then"`  // "nothing" | "scheduled" (the pod gets placed after 1 s) | "deleted" (after 1 s) |
+	// "ns-deleted" (the watched namespace of the pod disappears after 1 s, before the pod does: its informers are stopped while
+	// the delayed re-check of the pod is still pending; the watcher itself keeps running until cancelled)
 }
 
 type unschedOut struct {
@@ -1531,6 +1533,15 @@ func runUnschedCase(in unschedIn) (out unschedOut) {
 	pod := unschedPod(false)
 	_ = tracker.Create(kPod.gvr(), pod, "ns1")
 	id := objSpec{kPod, "ns1", "a"}.id()
+	ids := object.ObjMetadataSet{id}
+	if in.Then == "ns-deleted" {
+		ns := &unstructured.Unstructured{Object: map[string]any{}}
+		ns.SetGroupVersionKind(kNS.gvk)
+		ns.SetName("ns1")
+		_ = unstructured.SetNestedField(ns.Object, "Active", "status", "phase")
+		_ = tracker.Create(kNS.gvr(), ns, "")
+		ids = append(ids, objSpec{kNS, "", "ns1"}.id())
+	}
 	strat := watcher.RESTScopeNamespace
 	if in.Scope == "root" {
 		strat = watcher.RESTScopeRoot
@@ -1538,7 +1549,7 @@ func runUnschedCase(in unschedIn) (out unschedOut) {
 	ctx, cancel := context.WithCancel(context.Background())
 	defer cancel()
 	w := watcher.NewDefaultStatusWatcher(cl.client, cl.mapper)
-	ch := w.Watch(ctx, object.ObjMetadataSet{id}, watcher.Options{RESTScopeStrategy: strat})
+	ch := w.Watch(ctx, ids, watcher.Options{RESTScopeStrategy: strat})
 	var mu sync.Mutex
 	done := make(chan struct{})
 	go func() {
@@ -1564,6 +1575,8 @@ func runUnschedCase(in unschedIn) (out unschedOut) {
 		cl.mutate(func() { _ = tracker.Update(kPod.gvr(), unschedPod(true), "ns1") })
 	case "deleted":
 		cl.mutate(func() { _ = tracker.Delete(kPod.gvr(), "ns1", "a") })
+	case "ns-deleted":
+		cl.mutate(func() { _ = tracker.Delete(kNS.gvr(), "", "ns1") })
 	}
 	// past the schedule window (counted from the first report), with a margin
 	time.Sleep(status.ScheduleWindow + 1500*time.Millisecond - time.Second)
@@ -1585,6 +1598,31 @@ func runUnschedCase(in unschedIn) (out unschedOut) {
 	return out
 }
 
+// runUnschedIsolated runs one case in a child process: the delayed re-check runs on a goroutine of the library, a panic there
+// (e.g. a send on the closed channel of a stopped informer) cannot be recovered here and would take the whole harness down.
+func runUnschedIsolated(in unschedIn) unschedOut {
+	dead := unschedOut{Panic: true, Seq: []string{}}
+	exe, err := os.Executable()
+	if err != nil {
+		return dead
+	}
+	b, _ := json.Marshal(in)
+	cmd := exec.Command(exe, "unsched-exec", string(b))
+	cmd.Stderr = io.Discard
+	if os.Getenv("VERIF_C16_CHILD_STDERR") != "" {
+		cmd.Stderr = os.Stderr
+	}
+	raw, err := cmd.Output()
+	if err != nil {
+		return dead
+	}
+	var out unschedOut
+	if json.Unmarshal(raw, &out) != nil {
+		return dead
+	}
+	return out
+}
+
 func genUnsched(out *proto.Out, _ *proto.Rng, _ string) {
 	var ins []unschedIn
 	for _, scope := range []string{"root", "ns"} {
@@ -1592,11 +1630,12 @@ func genUnsched(out *proto.Out, _ *proto.Rng, _ string) {
 			ins = append(ins, unschedIn{Scope: scope, Then: then})
 		}
 	}
+	ins = append(ins, unschedIn{Scope: "ns", Then: "ns-deleted"})
 	res := make([]unschedOut, len(ins))
 	var wg sync.WaitGroup
 	for i := range ins {
 		wg.Add(1)
-		go func(i int) { defer wg.Done(); res[i] = runUnschedCase(ins[i]) }(i)
+		go func(i int) { defer wg.Done(); res[i] = runUnschedIsolated(ins[i]) }(i)
 	}
 	wg.Wait()
 	for i := range ins {
@@ -1605,12 +1644,21 @@ func genUnsched(out *proto.Out, _ *proto.Rng, _ string) {
 }
 
 func init() {
+	if len(os.Args) > 2 && os.Args[1] == "unsched-exec" {
+		var in unschedIn
+		if err := json.Unmarshal([]byte(os.Args[2]), &in); err != nil {
+			os.Exit(2)
+		}
+		b, _ := json.Marshal(runUnschedCase(in))
+		os.Stdout.Write(append(b, '\n'))
+		os.Exit(0)
+	}
 	register("watcher-unsched", domain{gen: genUnsched, run: func(raw json.RawMessage) (any, error) {
 		var in unschedIn
 		if err := json.Unmarshal(raw, &in); err != nil {
 			return nil, err
 		}
-		return runUnschedCase(in), nil
+		return runUnschedIsolated(in), nil
 	}})
 }
 
